@@ -14,13 +14,19 @@ NAMES = ["B", "a", "_", "-x", "0", "é", "Z", "b", "A", "aa", "a b", "~", "ä", 
 
 
 def gen_tree(rng, max_nodes):
-    return treegen.random_tree(rng, "r", max_nodes=max_nodes, max_depth=5, names=NAMES, p_link=0.05, p_dir=0.45,
-                               link_kinds=("file", "dir", "dangling"))
+    # (links to directories matter: -prune evaluated on such a link must not cut anything under -P)
+    return treegen.random_tree(rng, "r", max_nodes=max_nodes, max_depth=5, names=NAMES, p_link=rng.choice([0.05, 0.05, 0.25]), p_dir=0.45,
+                               link_kinds=("file", "dir", "dir", "dangling"))
 
 
 def sel_test(rng, dirs, files):
     """A test selecting some directories (or files, for the prune-on-non-directory shape)."""
     k = rng.random()
+    links = [f for f in files if f.startswith("L:")]
+    files = [f for f in files if not f.startswith("L:")]
+    if k < 0.14 and links:
+        # -prune evaluated on a symbolic link (possibly to a directory): nothing may be cut under -P
+        return rng.choice([["-name", rng.choice(links)[2:].rsplit("/", 1)[-1]], ["-type", "l"]]), "link"
     if k < 0.45 and dirs:
         d = rng.choice(dirs)
         return ["-name", d.rsplit("/", 1)[-1]], "name"
@@ -97,7 +103,7 @@ def worker(job):
             nodes = gen_tree(rng, rng.choice([6, 15, max_nodes]))
             treegen.build(sb, nodes)
             dirs = [n.path for n in nodes if n.kind == "d"]
-            files = [n.path for n in nodes if n.kind == "f"]
+            files = [n.path for n in nodes if n.kind == "f"] + ["L:" + n.path for n in nodes if n.kind == "l"]
             before = treegen.snapshot(os.path.join(sb, "r"))
             cases = []
             for i in range(nexpr):
@@ -219,6 +225,64 @@ def order_worker(job):
     return st
 
 
+RAW_NAMES = [b"\xe8re", b"\xe9cole", b"caf\xe8s", b"caf\xe9", b"\xff", b"\xfea", b"\x80", b"a\x80b", b"a\xffb", b"z\xc3", b"\xc3\xa9", b"\xc3\xa8x",
+             b"B", b"a", b"caf", b"cafz", b"e", b"f", b"\xf0\x9f", b"\xa0", b"\x85q"]
+
+
+def lossy(b):
+    return b.decode("utf-8", "replace").encode("utf-8")
+
+
+def bytes_order_worker(job):
+    """-sorted means byte-wise name order for *every* name, also one that is not valid UTF-8. Such names are printed lossily
+    (U+FFFD), so the expected sequence is the byte-ordered reference walk with each path passed through the same lossy
+    conversion; only trees whose lossy paths stay pairwise distinct are judged."""
+    import refwalk
+    k, ntrees, seed = job
+    st = Stats()
+    rng = common.rng_for(seed, "C03b", k)
+    base = common.mkscratch("C03b%d" % k)
+    try:
+        for t in range(ntrees):
+            sb = os.path.join(base, "t%d" % t)
+            os.makedirs(os.path.join(sb, "r"))
+            dirs = [b"r"]
+            made = set()
+            for _ in range(rng.randint(4, 14)):
+                parent = rng.choice(dirs)
+                nm = rng.choice(RAW_NAMES)
+                p = parent + b"/" + nm
+                if p in made or p.count(b"/") > 3:
+                    continue
+                made.add(p)
+                if rng.random() < 0.4:
+                    os.mkdir(os.path.join(os.fsencode(sb), p))
+                    dirs.append(p)
+                else:
+                    open(os.path.join(os.fsencode(sb), p), "wb").close()
+            for df in (False, True):
+                ents, w = refwalk.walk_list(["r"], "P", 0, None, df, True, sb)
+                exp_raw = [os.fsencode(e.path) for e in ents]
+                exp = [lossy(x) for x in exp_raw]
+                if len(set(exp)) != len(exp):
+                    st.inc("out_of_domain_lossy_collision")
+                    continue
+                args = [common.FIND, "r", "-sorted"] + (["-depth"] if df else []) + ["-print0"]
+                rc, out, err, to = common.run_cmd(args, cwd=sb, env=common.clean_env(), timeout=60)
+                st.inc("evaluations")
+                st.inc("non_utf8_sorted_runs")
+                st.add("distinct", tuple(exp_raw))
+                got = out.split(b"\0")[:-1]
+                if to or rc != 0 or got != exp:
+                    st.violate("sequence-differs", None, {"args": args[1:], "exit": rc, "expected": exp[:12], "observed": got[:12],
+                                                          "note": "names are not valid UTF-8; printed lossily, ordered byte-wise"},
+                               {"args": args[1:], "names": sorted(made)})
+            common.force_rmtree(sb)
+    finally:
+        common.force_rmtree(base)
+    return st
+
+
 def run(ctx):
     ctx.rule = ("trees with 2-5 levels and sibling names separating byte order from locale order; prune sets chosen by "
                 "-name/-path/-iname/-regex/glob tests in 8 expression shapes, with/without -depth, dead -delete, depth bounds; "
@@ -230,6 +294,8 @@ def run(ctx):
     jobs = [(k, ntrees // nw, ctx.scale(10, 14), ctx.seed, ctx.scale(30, 80), 1) for k in range(nw)]
     ctx.pmap(worker, jobs)
     ctx.pmap(order_worker, [(k, ctx.scale(10, 300), ctx.seed) for k in range(nw)])
+    ctx.pmap(bytes_order_worker, [(k, ctx.scale(12, 400), ctx.seed) for k in range(nw)])
+    ctx.require("non_utf8_sorted_runs", 20)
     ctx.require("order_runs(-H,symlinked-root,depth)", 5)
     ctx.require("order_runs(-L,symlinked-root,depth)", 5)
     for key in ("runs_with_subtree_cut", "metamorphic_depth_pairs", "runs_depth_first(depth)", "runs_depth_first(delete)", "binary_runs"):
